@@ -10,6 +10,8 @@ import Vipnode.Drv.Codec
 import Vipnode.Drv.Uri
 import Vipnode.Drv.Agent
 import Vipnode.Drv.Rpc
+import Vipnode.Drv.Persist
+import Vipnode.Drv.Conc
 open Vipnode Vipnode.Drv
 
 structure DState where
@@ -19,6 +21,7 @@ structure DState where
   agent : AgentDrv := {}
   life : Life := {}
   rpc : Rpc := {}
+  persist : PersistDrv := {}
 
 def stepLine (st : DState) (line : String) : DState × String :=
   let toks := (line.trimAscii.toString.splitOn " ").filter (· ≠ "")
@@ -34,6 +37,8 @@ def stepLine (st : DState) (line : String) : DState × String :=
   | "uri" :: args => (st, uriStep args)
   | "agent" :: args => let (s, o) := agentStep st.agent args; ({ st with agent := s }, o)
   | "fuzz" :: args => (st, fuzzStep args)
+  | "conc" :: args => (st, concStep args)
+  | "persist" :: args => let (s, o) := persistStep st.persist args; ({ st with persist := s }, o)
   | "rpc" :: args => let (s, o) := rpcStep st.rpc args; ({ st with rpc := s }, o)
   | "agentlife" :: args => let (s, o) := lifeDrvStep st.life args; ({ st with life := s }, o)
   | ["noop"] => (st, "noop")
